@@ -48,6 +48,11 @@ ASSUMPTIONS = [
     "receive lock is parked by the harness until another thread acts or time passes (stuttering)",
     "BgServingThread's sleep is an abstract always-enabled step in the model (any sleep duration)",
     "a caller blocked after its reply was processed (C14 / F3) is not a C13 failure: no data is pending then",
+    "a request made by the dispatching thread itself while it dispatches (the INSPECT round trip of _unbox for a reference "
+    "to a user-class instance) is a fresh logical thread of the model (the locks have no owner); EOF during such a nested "
+    "call, incoming REQUEST frames and handlers' nested serve() are not generated (C08/C01); AsyncResult.add_callback is "
+    "atomic in the harness (its race with the publication is C15's subject); serve_all/serve_threaded receivers are "
+    "represented by a caller without expiry whose request is never answered (the same serve(None) loop)",
     "by-reference results: proxies are kept alive until the end of a run, so their finalizers' HANDLE_DEL notices "
     "(C10's subject) do not occur inside the schedules",
 ]
@@ -86,6 +91,11 @@ CONFIGS = {
     "1c+2pollers-tick": dict(clients=[[3, None]], pollers=[[1, 0], ["ready", "ready"]], early_tick=True),
     # results that travel by reference (proxies) on a connection with a DEBUG logger and a real handler
     "2c+bg-byref-log": dict(clients=[[None], [6]], bg=True, byref=True, logger=True),
+    # references to instances of a user class: _unbox makes an INSPECT round trip on the dispatching thread (it runs as a
+    # fresh logical thread of the model); callers with callbacks; a caller the peer never answers (= a serve(None) receiver)
+    "2c+bg-userclass": dict(clients=[[6], [None]], bg=True, byref="user", callbacks=True),
+    "2c+poller-userclass-log": dict(clients=[[None], [7]], pollers=[[0, 1]], byref="user", logger=True),
+    "3c-serve-none": dict(clients=[[5], [None], [6]], mute=[2], callbacks=True),
     "2c+poller-byref-log-eof": dict(clients=[[5], [None]], pollers=[[0, "ready"]], byref=True, logger=True, eof=True),
 }
 
